@@ -1,9 +1,11 @@
 (* C06 — every non-identity target can be compiled for every admissible block size.
    Proved: (possible) every member of the commutator closure of a generating set IS the nested commutator of some
-   non-empty sequence of generators, so a correct compiler can be total exactly on the closure; (impossible) for odd k
+   non-empty sequence of generators, so a correct compiler can be total exactly on the closure; for every even k and
+   every N that closure is everything (C07_even_k), so EVERY non-identity target has a sequence the validator accepts
+   (C06_compilable_even_k: the failures of the library for even k are failures of its search); (impossible) for odd k
    the target X_0 X_1 is outside the closure of the universal set for EVERY N, so no sequence can ever pass the
    validator: raising is forced by the generating set, not by the search. *)
-From PauLie Require Import Pauli Sym ClSym Compiler CompilerT.
+From PauLie Require Import Pauli Sym ClSym Compiler CompilerT CompilableT.
 
 Theorem C06_nested_exists : forall n (G : list pstr) (t : pstr),
   (forall g, In g G -> length g = n) -> length t = n ->
@@ -11,6 +13,11 @@ Theorem C06_nested_exists : forall n (G : list pstr) (t : pstr),
   exists s, s <> [] /\ (forall a, In a s -> In a G) /\ nested_eval s = Some t.
 Proof. exact nested_exists. Qed.
 Print Assumptions C06_nested_exists.
+
+Theorem C06_compilable_even_k : forall N k U target, Nat.even k = true -> (2 <= k)%nat -> universal N k = Ok U ->
+  length target = N -> target <> identity N -> exists s, compile_ok N k target s = true.
+Proof. exact compilable_even_k. Qed.
+Print Assumptions C06_compilable_even_k.
 
 Theorem C06_refuted_odd_k : forall N k, Nat.odd k = true -> (3 <= k < N)%nat ->
   x0x1 N <> identity N /\ forall s, compile_ok N k (x0x1 N) s = false.
